@@ -18,7 +18,7 @@ theorem run_sim {s : Bytes} {isn : Nat} (hN : s.length < 2147483648) (hisn : isn
   | nil => exact Sim_init hisn
   | cons g h ih =>
     obtain ⟨⟨hwin, hin, hag⟩, hrest⟩ := hok
-    have hinv := runAbstract_AInv hrest
+    have hinv := runAbstract_AInv (tie := false) hrest
     rw [AInv_frontier hinv] at hwin
     exact (processPayload_sim hN (ih hrest) hinv g.off g.data hwin hin hag).1
 
